@@ -67,6 +67,17 @@ Definition base_case (B E : endian) (enc : bool) (nbits i : Z) (s data : list Z)
            (os : list Z) (oi : Z) (odata : list Z) (guards_ok : bool) : Z :=
   code (ctx_eqb (base_type B E enc nbits {| xs := s; xi := i |} data) os oi odata && guards_ok) true.
 
+(* specification of a base-type transfer when build and host agree *)
+Definition base_spec_ok (E : endian) (enc : bool) (nbits i : Z) (s data os odata : list Z) : bool :=
+  if enc
+  then lz_eqb os (bytes_of (length s) (bufZ s + 2 ^ i * (native_val E data mod 2 ^ nbits))) && lz_eqb odata data
+  else lz_eqb os s && (native_val E odata =? (bufZ s / 2 ^ i) mod 2 ^ nbits).
+
+Definition base_case_spec (B E : endian) (enc : bool) (nbits i : Z) (s data : list Z)
+           (os : list Z) (oi : Z) (odata : list Z) (guards_ok : bool) : Z :=
+  code (ctx_eqb (base_type B E enc nbits {| xs := s; xi := i |} data) os oi odata && guards_ok)
+       (base_spec_ok E enc nbits i s data os odata && (oi =? i + nbits) && guards_ok).
+
 Definition int_case (B E : endian) (enc : bool) (size nbits i : Z) (s data : list Z)
            (os : list Z) (oi : Z) (odata : list Z) (guards_ok : bool) : Z :=
   code (ctx_eqb (endecode_int B E enc size nbits {| xs := s; xi := i |} data) os oi odata && guards_ok) true.
